@@ -39,6 +39,7 @@ def clone(n):
     """Structural copy of an ast node: only the grammar fields (the model's _parent / _cls links are not followed)."""
     if isinstance(n, ast.AST):
         new = n.__class__()
+        new._oid = getattr(n, '_oid', id(n))
         for f in n._fields:
             if hasattr(n, f):
                 setattr(new, f, clone(getattr(n, f)))
@@ -60,11 +61,19 @@ MAX_EXPR = 400
 class _Subst(ast.NodeTransformer):
     def __init__(self, env):
         self.env = env
+        self.eff = env.get('#eff') if isinstance(env, dict) else None
+
+    def visit_Call(self, n):
+        if self.eff:
+            sym = self.eff.get(getattr(n, '_oid', id(n)))
+            if sym is not None:
+                return ast.Name(id=sym, ctx=ast.Load())
+        return self.generic_visit(n)
 
     def visit_Name(self, n):
         if isinstance(n.ctx, ast.Load) and n.id in self.env:
             v = self.env[n.id]
-            if v is not None:
+            if v is not None and isinstance(v, ast.AST):
                 return clone(v)
         return n
 
@@ -79,7 +88,7 @@ class _Subst(ast.NodeTransformer):
                 if isinstance(x, ast.Name):
                     bound.add(x.id)
         saved = self.env
-        self.env = {k: v for k, v in saved.items() if k not in bound}
+        self.env = {k: v for k, v in saved.items() if k not in bound or k == '#eff'}
         r = self.generic_visit(n)
         self.env = saved
         return r
@@ -192,7 +201,8 @@ def _p(e):
     return '(%s)' % t
 
 
-# formula = ('lit', text, polarity) | ('and', [..]) | ('or', [..])
+# formula = ('lit', text, polarity, node, truth) | ('and', [..]) | ('or', [..])
+#   the literal asserts: canonical `text` is `polarity`  ==  the (substituted) expression `node` evaluates to `truth`
 def cond_formula(e, pol=True):
     if isinstance(e, ast.UnaryOp) and isinstance(e.op, ast.Not):
         return cond_formula(e.operand, not pol)
@@ -211,13 +221,13 @@ def cond_formula(e, pol=True):
                 left = right
             return cond_formula(ast.BoolOp(ast.And(), parts), pol)
         t, p = _cmp(e.left, e.ops[0], e.comparators[0])
-        return ('lit', t, p == pol)
+        return ('lit', t, p == pol, e, pol)
     if isinstance(e, ast.Constant):
-        return ('lit', 'True', bool(e.value) == pol)
+        return ('lit', 'True', bool(e.value) == pol, e, pol)
     # len(x) / x as truth value
     if isinstance(e, ast.Call) and isinstance(e.func, ast.Name) and e.func.id in ('len', 'bool') and len(e.args) == 1:
-        return ('lit', ctext(e.args[0]), pol)
-    return ('lit', ctext(e), pol)
+        return ('lit', ctext(e.args[0]), pol, e, pol)
+    return ('lit', ctext(e), pol, e, pol)
 
 
 def _cmp(l, op, r):
@@ -308,7 +318,7 @@ def dnf(f):
     """formula -> list of conjunctions (each a list of (text, pol)) covering exactly the cases where it is true,
     in short-circuit evaluation order."""
     if f[0] == 'lit':
-        return [[(f[1], f[2])]]
+        return [[(f[1], f[2]) + tuple(f[3:5])]]
     if f[0] == 'and':
         out = [[]]
         for p in f[1]:
@@ -322,9 +332,27 @@ def dnf(f):
     return out
 
 
+def consistent(path, env, ev):
+    """Three-valued: do the condition literals of `path` hold under the bindings `env`?  ev(node, env) evaluates an
+    expression or raises; literals that cannot be evaluated are unknown.  -> True / False / None"""
+    unknown = False
+    for c in path.conds:
+        if len(c) < 6:
+            unknown = True
+            continue
+        try:
+            v = ev(c[4], env)
+        except Exception:
+            unknown = True
+            continue
+        if bool(v) != c[5]:
+            return False
+    return None if unknown else True
+
+
 def negate(f):
     if f[0] == 'lit':
-        return ('lit', f[1], not f[2])
+        return ('lit', f[1], not f[2]) + ((f[3], not f[4]) if len(f) > 4 else ())
     return ('or' if f[0] == 'and' else 'and', [negate(p) for p in f[1]])
 
 
@@ -380,9 +408,10 @@ def _assigned(stmts):
 
 
 class _Exec(object):
-    def __init__(self, f, inline=None, max_paths=MAX_PATHS, split_calls=True, positional=False, resolver=None, depth=0, init_env=None):
+    def __init__(self, f, inline=None, max_paths=MAX_PATHS, split_calls=True, positional=False, resolver=None, depth=0, init_env=None, effects=None):
         self.f = f
         self.init_env = init_env
+        self.effects = effects
         self.positional = positional
         self.resolver = resolver
         self.depth = depth
@@ -442,7 +471,7 @@ class _Exec(object):
         out = []
         for pol, form in ((True, f), (False, negate(f))):
             for conj in dnf(form):
-                conds = st.conds + tuple((t, p, test, e) for t, p in conj)
+                conds = st.conds + tuple((lit[0], lit[1], test, e) + tuple(lit[2:4]) for lit in conj)
                 # drop contradictory paths (same literal with both polarities)
                 seen = {}
                 ok = True
@@ -455,7 +484,34 @@ class _Exec(object):
                     out.append((Path(conds, st.events + tuple(evs), dict(st.env), None), pol))
         return out
 
+    def effect_prepass(self, exprs, st):
+        """Calls selected by self.effects (reads / appends on the stream object) get a symbol each, in evaluation order;
+        the statement then sees the symbol instead of the call."""
+        calls = [c for e in exprs if e is not None for c in _calls_postorder(e) if self.effects(c)]
+        if not calls:
+            return st
+        env = dict(st.env)
+        eff = dict(env.get('#eff') or {})
+        env['#eff'] = eff
+        n = env.get('#n', 0)
+        events = st.events
+        for c in calls:
+            n += 1
+            sym = '@%s#%d' % (_callee_name(c), n)
+            sx = subst(c, env)      # arguments see the symbols of earlier effects
+            eff[getattr(c, '_oid', id(c))] = sym
+            events = events + (('effect', sym, c, sx),)
+        env['#n'] = n
+        return Path(st.conds, events, env, None)
+
     def stmt(self, s, st):
+        if self.effects is not None:
+            if isinstance(s, ast.If):
+                st = self.effect_prepass([s.test], st)
+            elif isinstance(s, (ast.Expr, ast.Assign, ast.AnnAssign, ast.Return)):
+                st = self.effect_prepass([s.value], st)
+            elif isinstance(s, ast.AugAssign):
+                st = self.effect_prepass([s.value], st)
         if isinstance(s, (ast.Expr, ast.Assign, ast.AugAssign, ast.AnnAssign, ast.Return, ast.Raise)):
             # every simple statement leaves a marker carrying the number of conditions established before it
             st = Path(st.conds, st.events + (('stmt', len(st.conds), getattr(s, '_orig', s)),), st.env, None)
@@ -707,15 +763,15 @@ _CACHE = {}
 _DEPTH = [0]
 
 
-def paths(f, max_paths=MAX_PATHS, positional=False, resolver=None):
+def paths(f, max_paths=MAX_PATHS, positional=False, resolver=None, effects=None):
     """Path summaries of function f (cached per function node).  positional=True names the parameters
     ARG0, ARG1, ... (after self) so that summaries do not depend on parameter names."""
-    key = (id(f), positional, id(resolver))
+    key = (id(f), positional, id(resolver), id(effects))
     if key not in _CACHE:
         try:
             _DEPTH[0] += 1
             try:
-                _CACHE[key] = (f, _Exec(f, max_paths=max_paths, positional=positional, resolver=resolver, depth=_DEPTH[0]).run())
+                _CACHE[key] = (f, _Exec(f, max_paths=max_paths, positional=positional, resolver=resolver, depth=_DEPTH[0], effects=effects).run())
             finally:
                 _DEPTH[0] -= 1
         except TooManyPaths:
